@@ -274,6 +274,16 @@ def routeDtype (N : NumpyFacts) (P : DtypeRules) (r : Route) (d : Dtype) (isQuan
   | .toEquivalent => equivCopyDtype N P d
   | .convertToEquivalent => equivInplaceDtype N P d
 
+/-- the LARGE_INPUT warning per route: does unyt's own code issue the "Overflow encountered while
+    converting" RuntimeWarning?  Only `in_units` and `convert_to_units` contain the test;
+    `in_base` multiplies without looking, and across dimensions the equivalence formulas turn
+    integers into floats through NumPy promotion / `out=` promotion before any test sees them. -/
+def routeWarns (P : DtypeRules) (r : Route) (d : Dtype) (vs : List Int) : Bool :=
+  match r with
+  | .to | .inUnits | .toValue => inUnitsWarns P d vs
+  | .convertToUnits | .convertToBase => convertToUnitsWarns P d vs
+  | .inBase | .toEquivalent | .convertToEquivalent => false
+
 /-! ### values: which operations touch the numbers -/
 
 /-- one element of the data -/
@@ -281,7 +291,7 @@ inductive Elem (K : Type)
   | int (n : Int)
   | real (x : K)
   | cplx (re im : K)
-deriving Repr
+deriving Repr, DecidableEq
 
 /-- the arithmetic of the carrier: the embedding of integers and the rounding ("cast") of a real
     component to a float/complex dtype.  At `K = Float` these are IEEE conversions, over an exact
